@@ -49,6 +49,11 @@ class CapStream(io.RawIOBase):
         f = self.fault
         if not (self.armed and f):
             return
+        if f["kind"] == "stall":
+            # a stalled non-blocking stream: from call `at` on, every call fails with EAGAIN before taking effect
+            if idx >= f["at"] and phase == "before":
+                raise BlockingIOError(errno.EAGAIN, "injected stall: resource temporarily unavailable")
+            return
         if f["at"] == idx and ((phase == "before") != bool(f.get("after"))):
             if f["kind"] == "died":
                 if self.sink is not None:
